@@ -14,7 +14,7 @@ from ._pairs import V
 PID = "C17"
 LEVEL = "model_checking"
 WITNESSES = ["ks_strictly_between_0_and_1", "ks_full_stress", "cold_coefficient_partial", "heat_coefficient_zero", "gdd_clipped_low", "gdd_clipped_high",
-             "growth_curve_decay_stage", "decline_curve_reaches_zero", "inverse_checked", "fco2_above_1", "fco2_below_1", "fco2_season_reset_site", "fco2_overridden_sink_strength", "aeration_stress_active", "aeration_switched_off_crop"]
+             "growth_curve_decay_stage", "decline_curve_reaches_zero", "inverse_checked", "fco2_above_1", "fco2_below_1", "fco2_season_reset_site", "fco2_overridden_sink_strength", "aeration_stress_active", "aeration_switched_off_crop", "growth_curve_starts_in_decay_stage"]
 NONTRIVIAL = WITNESSES
 TOL = 1e-12
 
@@ -146,8 +146,14 @@ def run(scn):
         cc0 = float(crop.CC0)
         span = (float(crop.MaturityCD or 130)) * unit * 2
         nt = 200 if fine else 100
-        for fx, fg, fd in itertools.product([0.5, 1.0, 1.0 / max(float(crop.CCx), 1e-9) * min(1.0, float(crop.CCx) * 1.5)], [0.5, 1.0, 1.5], [0.5, 1.0, 1.5]):
+        # maximum covers: the crop's own, scaled, and SMALL ones relative to the initial cover (the stress-adjusted maximum the model
+        # passes in can be barely above CC0: the curve then starts in its decay stage)
+        fxs = [0.5, 1.0, 1.0 / max(float(crop.CCx), 1e-9) * min(1.0, float(crop.CCx) * 1.5)]
+        fxs += [k * cc0 / max(float(crop.CCx), 1e-9) for k in (1.2, 1.5, 1.9, 2.0, 2.5, 4.0)]
+        for fx, fg, fd in itertools.product(fxs, [0.5, 1.0, 1.5], [0.5, 1.0, 1.5]):
             ccx = min(1.0, float(crop.CCx) * fx)
+            if cc0 > ccx / 2:
+                hit("growth_curve_starts_in_decay_stage")
             cgc, cdc = cgc0 * fg, cdc0 * fd
             pg = pd_ = None
             for t in np.linspace(0, span, nt + 1):
